@@ -426,7 +426,43 @@ def check_uring_lengths(ctx):
     ctx.check(n_w >= 1, inst, "anchor", "-", "io_uring read/write submissions found (>= 1, found %d)" % n_w, None)
 
 
+def check_sync_fields(ctx, inst="C20.sync-fields"):
+    """`unsafe impl Send / Sync` switches the compiler's data-race check off for the whole type: every field - today's and any
+    added later - is then shared between threads on the author's word. The word was given for the fields reviewed here (atomics,
+    locks, OnceLock, Arc / Weak, plain immutable data, the epoch-managed link); a field with thread-unsafe interior mutability
+    (Cell, RefCell, UnsafeCell, Rc, raw pointers) added afterwards compiles silently and races in safe code."""
+    import re
+    prog = ctx.prog
+    BAD = re.compile(r"std::cell::|core::cell::|std::rc::|alloc::rc::|\*const |\*mut |UnsafeCell|NonNull<|std::sync::mpsc::Receiver")
+    SYNC_OK = re.compile(r"^(u8|u16|u32|u64|usize|i64|bool|std::vec::Vec<u8>|std::sync::atomic::Atomic<[a-z0-9]+>|"
+                         r"parking_lot::lock_api::(RwLock|Mutex)<.*>|std::sync::OnceLock<std::sync::Arc<core::record::Record>>|"
+                         r"std::option::Option<std::sync::Weak<core::record::Record>>|crossbeam_epoch::Atomic<core::record::Record>|bytes::Bytes)$")
+    targets = sorted({u["self_ty"] for u in prog.unsafe if u.get("kind") == "impl" and u.get("user") and u.get("trait") in ("std::marker::Send", "std::marker::Sync")})
+    ctx.check(len(targets) >= 1, inst, "anchor", "-", "types with a hand-written Send / Sync (found %d)" % len(targets), None)
+    n_f = 0
+    for t in targets:
+        seen = set()
+        work = [t.split("<")[0]]
+        while work:
+            path = work.pop()
+            if path in seen or path not in prog.adts:
+                continue
+            seen.add(path)
+            for v in prog.adts[path].get("variants", []):
+                for f in v.get("fields", []):
+                    n_f += 1
+                    ty = f["ty"]
+                    bad = BAD.search(ty)
+                    ok = bool(SYNC_OK.match(ty)) or ty.split("<")[0] in prog.adts
+                    ctx.check(not bad and ok, inst, "INVENTORY", path, "field `%s` of a type with `unsafe impl Send/Sync` is one of the reviewed thread-safe kinds" % f["name"], None,
+                              {"type": ty[:120], "why": "thread-unsafe interior mutability" if bad else ("unreviewed field type" if not ok else None)})
+                    if ty.split("<")[0] in prog.adts:
+                        work.append(ty.split("<")[0])
+    ctx.check(n_f >= 16, inst, "anchor", "-", "fields examined (>= 16, found %d)" % n_f, None)
+
+
 def check(ctx):
+    check_sync_fields(ctx)
     check_uring_lengths(ctx)
     check_inventory(ctx)
     check_epoch(ctx)
